@@ -24,6 +24,10 @@ pub struct SinkState {
     pub flushes: u64,
     /// index (in calls) of the call that failed
     pub failed_at: Option<u64>,
+    /// the sink failed and the failure has not been reported to the caller yet (reset by the oracle)
+    pub unreported: bool,
+    /// write() calls made while a failure was unreported
+    pub calls_while_unreported: u64,
 }
 
 pub struct ScriptedSink(pub Rc<RefCell<SinkState>>);
@@ -33,6 +37,7 @@ impl Write for ScriptedSink {
         let mut st = self.0.borrow_mut();
         st.calls += 1;
         st.log.push(buf.len());
+        if st.unreported { st.calls_while_unreported += 1; }
         match st.events.pop_front() {
             None => { st.received.extend_from_slice(buf); Ok(buf.len()) }
             Some(WEv::Accept(k)) => {
@@ -40,12 +45,14 @@ impl Write for ScriptedSink {
                 st.received.extend_from_slice(&buf[..n]);
                 if n == 0 && !buf.is_empty() {
                     st.failed_at = Some(st.calls); // write_all turns Ok(0) into WriteZero
+                    st.unreported = true;
                 }
                 Ok(n)
             }
             Some(WEv::Interrupt) => Err(io::Error::new(io::ErrorKind::Interrupted, "scripted interrupt")),
             Some(WEv::Fail(e)) => {
                 st.failed_at = Some(st.calls);
+                st.unreported = true;
                 Err(io::Error::new(io::ErrorKind::Other, Scripted(e)))
             }
         }
@@ -176,8 +183,8 @@ pub fn oracle(toks: &[&str]) -> String {
             Err(p) => return format!("FAIL op#{i}({op}): panic {}", panic_kind(&*p)),
         };
         written.extend_from_slice(&bs);
-        let s = st.borrow();
-        if pending && s.calls != calls_before {
+        let mut s = st.borrow_mut();
+        if (pending && s.calls != calls_before) || s.calls_while_unreported > 0 {
             return format!("FAIL op#{i}({op}): the sink was called between its failure and the report of that failure");
         }
         let failed_now = s.failed_at.map_or(false, |c| c > calls_before);
@@ -188,6 +195,7 @@ pub fn oracle(toks: &[&str]) -> String {
                 return format!("FAIL op#{i}({op}): reported {obs}, but an unreported sink failure exists = {}", pending || failed_now);
             }
             pending = false;
+            s.unreported = false;
         } else if failed_now {
             pending = true;
         }
